@@ -172,6 +172,12 @@ impl Circuit {
             }
             register_set[inst.out] = true;
         }
+        // an output register that is never written holds no defined value:
+        for &o in self.output_regs.iter() {
+            if !register_set[o] {
+                return Err(CircuitError::InvalidOutput(o));
+            }
+        }
 
         Ok(())
     }
